@@ -35,3 +35,24 @@ func VerifCheckState(st *DbState, full bool) error {
 	}
 	return nil
 }
+
+// VerifSyncComplete completes an update transaction when the database runs
+// with the synchronous checker (CheckerSync): the same steps the checker
+// goroutine performs for a ckCommit message in checkco.go dispatch - commit in
+// the checker, publish the transaction's state, merge - without channels.
+// It returns "" on success, otherwise the failure text.
+func VerifSyncComplete(db *Database, ut *UpdateTran) string {
+	ck := db.ck.(*Check)
+	tables := ck.commit(ut)
+	if tables == nil {
+		return ut.ct.failure.Load()
+	}
+	if len(tables) == 0 {
+		return ""
+	}
+	ut.commit()
+	merges := &mergeList{}
+	merges.start(todo{tables: tables, meta: ut.meta})
+	db.Merge(mergeSingle, merges)
+	return ""
+}
